@@ -29,7 +29,6 @@ Definition get_base (base_tag : str) : Z + str :=
   end.
 
 Definition custom_prefix : str := s2l "u:".
-Definition custom_marshal_prefix : str := s2l "m:".
 
 (* conversion of one scalar: Ok (inl value) | Ok (inr foreign-error-text) | Panic (oracle miss) *)
 Definition convert_kind (orc : oracles) (base_tag : str) (val : str) (k : kind) : res (value + str) :=
@@ -152,7 +151,7 @@ Fixpoint convert (orc : oracles) (base_tag : str) (val : str) (ty : vtype) (cur 
    marshalled, or an oracle miss *)
 Definition to_string_kind (orc : oracles) (base_tag : str) (k : kind) (v : value) : res (str * option str) :=
   match k, v with
-  | KCustom, VStr s => Ok (custom_marshal_prefix ++ s, None)
+  | KCustom, VStr s => Ok ((if has_prefix s custom_prefix then skipn 2 s else s), None)
   | KDuration, VInt z =>
     match find_durfmt (or_durfmt orc) z with
     | Some t => Ok (t, None)
